@@ -15,8 +15,11 @@ import warnings
 
 
 def _reexec_hashseed():
-    if os.environ.get("PYTHONHASHSEED") != "0":
-        env = dict(os.environ, PYTHONHASHSEED="0", FORSYS_VERIF="1")
+    """Fixed hash seed (set iteration order) and single-threaded BLAS (bit-reproducible linear algebra, and no
+    oversubscription when the thorough tier runs many worker processes): both must be set before Python/numpy start."""
+    want = {"PYTHONHASHSEED": "0", "OPENBLAS_NUM_THREADS": "1", "OMP_NUM_THREADS": "1", "MKL_NUM_THREADS": "1"}
+    if any(os.environ.get(k) != v for k, v in want.items()):
+        env = dict(os.environ, FORSYS_VERIF="1", **want)
         os.execve(sys.executable, [sys.executable, "-m", "harness.run"] + sys.argv[1:], env)
 
 
